@@ -163,6 +163,47 @@ fn run_bufwriter(kvs: &[Kv], reference: &[u8], cap: usize, script: &[(usize, Ans
         }
         let sink = w.into_inner().map_err(|e| format!("{:?}", e.error()))?;
         check_bytes(&format!("BufWriter({})", cap), &sink.data, reference, kvs)?;
+        // the same through a BORROWED writer and finish(): when finish() has
+        // returned, the sink below the BufWriter holds the whole FST
+        let mut w = BufWriter::with_capacity(cap, ScriptSink::new(script.to_vec(), policy));
+        {
+            let mut b = raw::Builder::verif_new_with_registry(&mut w, 0, 3, 3).map_err(|e| format!("new failed: {:?}", e))?;
+            for (i, (k, v)) in kvs.iter().enumerate() {
+                b.insert(k, *v).map_err(|e| format!("insert {} failed: {:?}", i, e))?;
+            }
+            b.finish().map_err(|e| format!("finish failed: {:?}", e))?;
+        }
+        if !w.buffer().is_empty() {
+            return Err(format!("borrowed BufWriter({}): {} bytes still unflushed after finish() returned", cap, w.buffer().len()));
+        }
+        check_bytes(&format!("borrowed BufWriter({}) + finish()", cap), &w.get_ref().data, reference, kvs)?;
+        // MapBuilder / SetBuilder::finish over borrowed writers
+        let is_set = kvs.iter().all(|x| x.1 == 0);
+        let mut w = BufWriter::with_capacity(cap, ScriptSink::new(script.to_vec(), policy));
+        {
+            let mut b = fst::MapBuilder::new(&mut w).map_err(|e| format!("{:?}", e))?;
+            for (k, v) in kvs {
+                b.insert(k, *v).map_err(|e| format!("{:?}", e))?;
+            }
+            b.finish().map_err(|e| format!("MapBuilder::finish failed: {:?}", e))?;
+        }
+        let want = crate::front::build(crate::front::Front::MapInsert, crate::front::DEFAULT_GEOM, kvs)?;
+        if !w.buffer().is_empty() || w.get_ref().data != want {
+            return Err(format!("MapBuilder over a borrowed BufWriter({}): after finish() the sink holds {} bytes ({} still buffered), the in-memory build has {}", cap, w.get_ref().data.len(), w.buffer().len(), want.len()));
+        }
+        if is_set {
+            let mut w = BufWriter::with_capacity(cap, ScriptSink::new(script.to_vec(), policy));
+            {
+                let mut b = fst::SetBuilder::new(&mut w).map_err(|e| format!("{:?}", e))?;
+                for (k, _) in kvs {
+                    b.insert(k).map_err(|e| format!("{:?}", e))?;
+                }
+                b.finish().map_err(|e| format!("SetBuilder::finish failed: {:?}", e))?;
+            }
+            if !w.buffer().is_empty() || w.get_ref().data != want {
+                return Err(format!("SetBuilder over a borrowed BufWriter({}): after finish() the sink holds {} bytes ({} still buffered), the in-memory build has {}", cap, w.get_ref().data.len(), w.buffer().len(), want.len()));
+            }
+        }
         Ok(sink.calls)
     })
     .and_then(|x| x)
@@ -206,7 +247,7 @@ pub fn replay(case: &Value) -> Result<String, String> {
 pub fn plan(tier: Tier) -> Plan {
     let mut p = Plan::new("C07", "model_checking");
     let thorough = tier.thorough();
-    p.rule = "for each input of a fixed list (empty set; only the empty key; one key; three keys with 5-byte values; a map using every node form; a 40-way fan-out whose 256-byte index goes through one write_all) the real builder runs over a scripted sink for EVERY answer sequence with <= d deviations (a deviation = any shorter non-empty acceptance of that call's buffer, or Err(Interrupted)); plus policy sinks deviating on every call (cap 1..16, Interrupted before every call, both, page-bounded writers), also on outputs of 12..70 KB, BufWriter capacities {1,2,3,8,64,8192} (with <= 1 deviation underneath) and Vecs pre-filled with {1,7,8,16,4096} bytes; oracle: sink bytes == in-memory build, bytes_written() == bytes accepted after every insert, result opens/verifies/has the model content. non-trivial = executions with at least one deviation".into();
+    p.rule = "for each input of a fixed list (empty set; only the empty key; one key; three keys with 5-byte values; a map using every node form; a 40-way fan-out whose 256-byte index goes through one write_all) the real builder runs over a scripted sink for EVERY answer sequence with <= d deviations (a deviation = any shorter non-empty acceptance of that call's buffer, or Err(Interrupted)); plus policy sinks deviating on every call (cap 1..16, Interrupted before every call, both, page-bounded writers), also on outputs of 12..70 KB, BufWriter capacities {1,2,3,8,64,8192} (with <= 1 deviation underneath; owned + into_inner, and borrowed + finish() of the raw, map and set builders) and Vecs pre-filled with {1,7,8,16,4096} bytes; oracle: sink bytes == in-memory build, bytes_written() == bytes accepted after every insert, result opens/verifies/has the model content. non-trivial = executions with at least one deviation".into();
     p.assumptions = vec!["the sink honours the io::Write contract (never reports more than it accepted)".into()];
     let shards = 16usize;
     for (name, kvs) in inputs() {
